@@ -110,6 +110,10 @@ func (u *Unit) addrEffect(e *Effects, addr ssa.Value) {
 		} else {
 			hn, hs := derefHeapName(u.sortOf(pt.Elem()))
 			e.heaps[hn] = hs
+			for _, af := range u.aliasedFields(pt.Elem()) {
+				fhn, fhs, _ := u.fieldHeapName(af.styp, af.field)
+				e.heaps[fhn] = fhs
+			}
 		}
 	case *ssa.Global:
 		e.heaps["G!"+smtName(x.String())] = u.sortOf(x.Type().(*types.Pointer).Elem())
@@ -463,6 +467,7 @@ var stubEffects = map[string]string{
 	"(reflect.Value).Call":        "all",
 	"encoding/json.Marshal":       "none",
 	"encoding/json.Unmarshal":     "unmarshal",
+	"(*database/sql.Row).Scan":    "scan", "(*database/sql.Rows).Scan": "scan",
 	"(*sync.RWMutex).Lock":        "lock", "(*sync.RWMutex).RLock": "lock", "(*sync.RWMutex).Unlock": "none", "(*sync.RWMutex).RUnlock": "none",
 	"(*sync.Mutex).Lock":          "lock", "(*sync.Mutex).Unlock": "none",
 	"(*sync.WaitGroup).Add":       "none", "(*sync.WaitGroup).Done": "none", "(*sync.WaitGroup).Wait": "none",
